@@ -73,11 +73,10 @@ func (i *Input) readFrom(r io.Reader, extended bool) (int64, error) {
 		return bytesRead, err
 	}
 
-	script := make([]byte, l)
-	n, err = io.ReadFull(r, script)
-	bytesRead += int64(n)
+	script, err := readBytes(r, uint64(l))
+	bytesRead += int64(len(script))
 	if err != nil {
-		return bytesRead, errors.Wrapf(err, "script(%d): got %d bytes", l, n)
+		return bytesRead, errors.Wrapf(err, "script(%d): got %d bytes", l, len(script))
 	}
 
 	sequence := make([]byte, 4)
@@ -110,11 +109,10 @@ func (i *Input) readFrom(r io.Reader, extended bool) (int64, error) {
 			return bytesRead, err
 		}
 
-		script := make([]byte, scriptLen)
-		n, err := io.ReadFull(r, script)
-		bytesRead += int64(n)
+		script, err := readBytes(r, uint64(scriptLen))
+		bytesRead += int64(len(script))
 		if err != nil {
-			return bytesRead, errors.Wrapf(err, "script(%d): got %d bytes", scriptLen.Length(), n)
+			return bytesRead, errors.Wrapf(err, "script(%d): got %d bytes", scriptLen, len(script))
 		}
 
 		prevTxLockingScript = *bscript.NewFromBytes(script)
